@@ -57,7 +57,7 @@ def thousandths(c):
     return int(round(float(c) * 1000))
 
 
-def project_row(proj, arg, row, reaction_col, threshold):
+def project_row(proj, arg, row, reaction_col, threshold, keep_maps=False):
     rxn = row.get(reaction_col)
     echo = row.get("input_reaction")
     issue = row.get("issue", "ABSENT")
@@ -86,6 +86,7 @@ def project_row(proj, arg, row, reaction_col, threshold):
                       oracle.has_map(echo if isinstance(echo, str) else "")),
         "echo_nomap": not oracle.has_map(echo if isinstance(echo, str) else ""),
         "placeholder": is_placeholder_input(arg) if isinstance(arg, str) else False,
+        "keep_maps": bool(keep_maps),
     }
 
 
@@ -317,7 +318,8 @@ def main():
         if rows is not None:
             for k, row in enumerate(rows):
                 arg = args[k] if aligned else row.get("input_reaction")
-                e = project_row(proj, arg if isinstance(arg, str) else "", row, col, run.get("threshold", 0))
+                e = project_row(proj, arg if isinstance(arg, str) else "", row, col, run.get("threshold", 0),
+                                keep_maps=not run.get("remove_aam", True))
                 e.update({"run": rid, "name": run.get("name"), "pos": k, "aligned": aligned})
                 emit(e)
                 summary.append({"solved": e["solved"], "by": e["by"], "echo": e["input_reaction"],
